@@ -541,6 +541,10 @@ def r20_4(ctx: Ctx, R: Resolver):
         if lp and isinstance(lp[0].target, ast.Tuple) and norm(lp[0].iter).endswith(".items()"):
             k, v = [norm(e) for e in lp[0].target.elts]
             oka = norm(t.value).endswith("molecule_correspondence[%s]" % k) and norm(att[0].value) == v
+        elif lp and isinstance(lp[0].target, ast.Name):
+            # canonical form of the same loop: `for k in D: ... D[k]`
+            k = lp[0].target.id
+            oka = norm(t.value).endswith("molecule_correspondence[%s]" % k) and norm(att[0].value) == "%s[%s]" % (norm(lp[0].iter), k)
     ctx.ob("R20.4", am, mf[0] if mf else "Manager.from_files", okm and oka,
            "the manager is built from the reference coordinates and the start topologies; each end molecule is "
            "attached to the alignment of the species whose name was read from its start topology",
